@@ -300,7 +300,7 @@ fn conf_generic<const L: usize>(mode: u8, n0max: usize) {
     }
     // reachability witnesses: a planned switch was taken; the implicit
     // end-of-symbol form was produced (modes that have one); padding was added
-    kani::cover!(was_switched || L < 2);
+    kani::cover!(was_switched || L < 2 || (mode == vd::M_X12 && L < 6));
     kani::cover!(stop == Stop::End || mode == vd::M_ASCII || mode == vd::M_B256);
     kani::cover!(stop2 == Stop::Pad);
 }
